@@ -74,6 +74,7 @@ func C08(p *core.Prog, r *core.Report) {
 	ModPair(p, r)
 	LocatorFresh(p, r)
 	LocPrecedence(p, r)
+	LocGrammar(p, r)
 	LocateRC(p, r)
 	r.Rule("FILL", ruleFill, 3)
 	r.Rule("REVERSE-MAP", "a two-pointer loop that transforms the elements it swaps must run while l <= r", 0)
@@ -87,6 +88,7 @@ func C08(p *core.Prog, r *core.Report) {
 func C10(p *core.Prog, r *core.Report) {
 	MergeRanged(p, r)
 	NegIndex(p, r)
+	WrapCond(p, r)
 	ConcatOffset(p, r)
 	r.Rule("FMAP", ruleFmap, 12)
 	Fmap(p, r, []FmapSpec{{Pkg: gts, Name: "Insert", Inputs: []int{0, 2}}, {Pkg: gts, Name: "Embed", Inputs: []int{0, 2}}, {Pkg: gts, Name: "Delete", Inputs: []int{0}}, {Pkg: gts, Name: "Slice", Inputs: []int{0}}, {Pkg: gts, Name: "Concat", Variadic: true}})
